@@ -147,6 +147,26 @@ def main():
         n += 1
         if res != [want]:
             problems.append(f'_MatchList.next on {seq} at {idx}: CPython {want}, interpreter {res}')
+    # 5. merge_arglikes on concrete positions (list.sort with an interpreted key function)
+    nat = _native('astutil', 'merge_arglikes')
+    it, f = _interp('astutil', 'merge_arglikes')
+    for trial in range(300):
+        k = rnd.randrange(0, 5)
+        pos = [(rnd.randrange(1, 4), rnd.randrange(0, 30)) for _ in range(k)]
+        if len(set(pos)) != len(pos):
+            continue
+        kinds = [rnd.choice('EK') for _ in range(k)]
+        nn = [types.SimpleNamespace(lineno=p[0], col_offset=p[1], tag=i) for i, p in enumerate(pos)]
+        sn = [SObj(f'n{i}', {}, lineno=p[0], col_offset=p[1], tag=i) for i, p in enumerate(pos)]
+        want = [x.tag for x in nat([x for x, kd in zip(nn, kinds) if kd == 'E'], [x for x, kd in zip(nn, kinds) if kd == 'K'])]
+
+        def go(ctx, sn=sn, kinds=kinds):
+            r = it.call(f, ([x for x, kd in zip(sn, kinds) if kd == 'E'], [x for x, kd in zip(sn, kinds) if kd == 'K']))
+            ctx.notes['r'] = [x._get('tag') for x in r]
+        res = [c.notes.get('r') for c in sym.explore(go)]
+        n += 1
+        if res != [want]:
+            problems.append(f'merge_arglikes on {list(zip(kinds, pos))}: CPython {want}, interpreter {res}')
     for p in problems[:20]:
         print('CHECKER-ERROR crosscheck:', p)
     print(f'crosscheck: {n} concrete executions compared with CPython, {len(problems)} disagreements')
